@@ -136,6 +136,25 @@ def run(prog, rep, tier, repo):
                 rep.sample('Adam: %s := %s' % (tgt, g_))
             else:
                 rep.viol('recurrence', key, 'Adam updates %s := %s; the published rule (Kingma & Ba 2014, Alg. 1) is %s' % (tgt, g_, w), site_of(f.body))
+        # every coordinate is advanced in every step: the recurrences m <- b1 m + (1-b1) g, v <- .., theta <- .. hold for all g, also g = 0
+        # (m and v decay, theta still moves by the remembered momentum); an update that is skipped on a test of the gradient value leaves
+        # that coordinate at an earlier iterate
+        key = 'recurrence:adam:every-coordinate'
+        skipped = []
+        for s_ in st:
+            for cn in f.control_conds(s_.bb):
+                if tag(cn) == 'bin' and len(cn) > 4 and cn[4] in ('f64', 'f32') and cn[1] in ('Eq', 'Ne', 'Lt', 'Le', 'Gt', 'Ge'):
+                    if any(tag(z) == 'index' and alias.get(z[1]) == 'g' for z in subterms(cn)) or \
+                            any(tag(z) == 'call' and short(z[1]) == 'wrt' for z in subterms(cn)):
+                        skipped.append((s_, cn))
+        if not st:
+            rep.undecided('recurrence', key, 'no element store in the update loop', site_of(f.body), proof=False)
+        elif skipped:
+            s_, cn = skipped[0]
+            rep.viol('recurrence', key, 'the update of %s is performed only when `%s` goes one way: a coordinate whose gradient meets that test keeps its old m, v and value, '
+                     'so the result is not the k-th iterate of the recurrence' % (canon(f, s_.target, fn, me, alias), show(cn)[:50]), site_of(s_.span))
+        else:
+            rep.ok('recurrence', key, 'no update store depends on a test of the gradient value')
         # t is incremented once per iteration, before the parameter loop
         key = 'recurrence:adam:step-counter'
         ts = [s for s in f.stores() if tag(s.target) == 'local' and s.target[2] == 't']
@@ -269,7 +288,7 @@ def run(prog, rep, tier, repo):
         else:
             rep.viol('recurrence', key, 'the gradient evaluation point does not follow the nesterov flag (look-ahead theta - momentum*u vs theta)', site_of(f.body))
         _early_stop(prog, rep, f, 'sgd')
-    rep.floor('recurrence', 8, 'Adam (m, v, theta, t) + SGD (u, theta, order, gradient point)')
+    rep.floor('recurrence', 9, 'Adam (m, v, theta, every coordinate, t) + SGD (u, theta, order, gradient point)')
     rep.floor('early-stop', 4, 'loop condition + convergence flag for Adam and SGD')
 
     # ------------------------------------------------------------------ LM
